@@ -150,6 +150,7 @@ def _clone(v, memo):
         o = ArrStore(v.shape, v.fn, v.kind, v.name)
         o.finite = v.finite
         o.frozen = getattr(v, 'frozen', False)
+        o.maybe_int = getattr(v, 'maybe_int', False)
         memo[id(v)] = o
         return o
     if isinstance(v, SArr) and v.store is not None:
@@ -815,6 +816,16 @@ class Executor:
         if isinstance(op, ast.Mult) and isinstance(a, (tuple, list)) and isinstance(b, int):
             return a * b
         if isinstance(a, (SArr, SSeq, SBag)) or isinstance(b, (SArr, SSeq, SBag)):
+            if isinstance(op, (ast.Mult, ast.Pow)):
+                # machine arithmetic: products / powers of an array that may hold narrow
+                # integers wrap around silently; the real-number model is only valid after a
+                # conversion to float
+                for v in (a, b):
+                    if isinstance(v, SArr) and v.store is not None \
+                            and getattr(v.store, 'maybe_int', False) and not (
+                                isinstance(op, ast.Mult) and is_bool(b if v is a else a)):
+                        st.check('array of unknown (possibly narrow integer) dtype is converted '
+                                 'to float before it is multiplied / squared', z3.BoolVal(False))
             if isinstance(op, (ast.Div, ast.FloorDiv, ast.Mod)):
                 # numpy elementwise division never raises (it yields inf/nan, which the
                 # real-number model cannot represent): instead of a lazily emitted scalar
@@ -1508,6 +1519,19 @@ class Executor:
                 for f in s2.facts[len(st.facts):]:
                     sink.facts.append(f)
                 return v
+            # the obligations of the element expression hold for every index: collect them now,
+            # at a fresh index, whether or not a postcondition ever reads an element
+            k = fresh('lc', 'int')
+            t0 = st.clone()
+            t0.assume(z3.And(k >= 0, k < num_term(it.length)))
+            n0 = len(t0.checks)
+            try:
+                self.assign(gen.target, it.fn(k), t0)
+                self.eval1(node.elt, t0)
+                for lab, hyps, f in t0.checks[n0:]:
+                    st.checks.append((lab, hyps, f))
+            except Unsupported:
+                raise
             return [(st, SSeq(it.length, fn, 'obj'))]
         raise Unsupported('comprehension over unsupported iterable')
 
